@@ -313,7 +313,7 @@ func (r *flowRun) runChannelClient(cs *chanState, open opener) {
 			if s == 1 && scancel != nil {
 				// the opening message (sender 0) is never abandoned half-way: a cancelled open would
 				// leave a channel the peer has never heard of
-				simrt.WaitCond("flow.wait-open", func() bool { return cs.d[0].sendDone[0] })
+				hWaitCond("flow.wait-open", func() bool { return cs.d[0].sendDone[0] })
 			}
 			for _, k := range cs.d[0].bySender[s] {
 				if k >= nData {
@@ -388,7 +388,7 @@ func (r *flowRun) recvLoop(cs *chanState, dir int, ch mpx.Channel, ctx async.Con
 	ds := cs.d[dir]
 	for limit < 0 || ds.recvCount < limit {
 		if delayUs > 0 {
-			simrt.Sleep(time.Duration(delayUs) * time.Microsecond)
+			hSleep(time.Duration(delayUs) * time.Microsecond)
 		}
 		data, st := ch.Receive(ctx)
 		if st.OK() {
@@ -423,6 +423,8 @@ func (r *flowRun) recvLoop(cs *chanState, dir int, ch mpx.Channel, ctx async.Con
 
 // handler is the server side of every channel.
 func (r *flowRun) handler(ctx mpx.Context, ch mpx.Channel) (ret status.Status) {
+	hbAcquire()
+	defer hbRelease()
 	r.active++
 	defer func() { r.active-- }()
 	// first message identifies the channel
